@@ -9,11 +9,11 @@
 package effects
 
 import (
-	"os"
 	"fmt"
 	"go/constant"
 	"go/token"
 	"go/types"
+	"os"
 	"sort"
 	"strings"
 
@@ -73,14 +73,14 @@ func (s set) keys() []string {
 
 // Summary of one function, in terms of its own parameters.
 type Summary struct {
-	Fn  *ssa.Function
-	Wr  map[string]*Witness // "P<i>" or "G:<name>" → how
+	Fn *ssa.Function
+	Wr map[string]*Witness // "P<i>" or "G:<name>" → how
 	// OtherWr: keys of Wr with at least one write that is not an append into spare capacity
 	OtherWr map[string]bool
-	Ret []set               // per result: "P<i>", "G:<name>", "Fresh"
-	Esc map[string]set      // "P<i>"/"G:.." → objects whose pointers may be stored into it
+	Ret     []set          // per result: "P<i>", "G:<name>", "Fresh"
+	Esc     map[string]set // "P<i>"/"G:.." → objects whose pointers may be stored into it
 	// Unmodelled external callees with pointer-like operands (fail closed).
-	Unmodelled map[string]*Witness
+	Unmodelled  map[string]*Witness
 	GlobalsRead set
 	// calls through function-typed parameters (resolved at this function's call sites)
 	ParamCalls []ParamCall
